@@ -58,7 +58,17 @@ class PipelineRunner:
         log = _log.bind(node=node.name)
         status = self.status[node.name]
         if status == "finished":
-            return self.state[node.name]
+            if node.name in self.state:
+                val = self.state[node.name]
+                if val is None and required and isinstance(node, InputNode):
+                    # an earlier optional request does not waive this request's requirement
+                    self._inject_input(node.name, node.types, required)
+                return val
+            elif required:
+                # the node was skipped earlier because nothing required it
+                raise PipelineError(f"no data available for required node {node}")
+            else:
+                return None
         elif status == "in-progress":
             raise PipelineError(f"pipeline cycle encountered at {node}")
         elif status == "failed":  # pragma: nocover
